@@ -96,6 +96,11 @@ def make_object(case):
         def sym(a): return (a + a.transpose(0, 2, 1)) / 2
         k = p.sys.domain.k.reshape((-1, 1, 1)); r = p.sys.domain.r.reshape((-1, 1, 1))
         p.totalCorr.data = sym(rs.normal(size=(L, n, n))) * 0.3 * np.exp(-r / 2.0); p.totalCorr.space = Space.Real
+        if len(case['obj']) > 2 and case['obj'][2] == 'core':
+            # the exact hard-core condition h(r <= sigma) = -1 written into the object by hand: g is exactly 0 there
+            for i in range(n):
+                for j in range(n):
+                    p.totalCorr.data[p.sys.domain.r <= min((sd['diam'][i] + sd['diam'][j]) / 2.0, 0.35 * float(p.sys.domain.r[-1])), i, j] = -1.0
         p.directCorr.data = sym(rs.normal(size=(L, n, n))) * 0.02 / (1 + k * k); p.directCorr.space = Space.Fourier
         p.omega.data = sym(np.abs(rs.normal(size=(L, n, n))) + 0.5) * p.sys.density.site.data / (1 + 0.1 * k * k); p.omega.space = Space.Fourier
         class R: pass
